@@ -203,6 +203,25 @@ PROPS = {
         "not_decided": ["completeness of the iteration", "pre-order/post-order set equality", "is_shared_as", "the HashMap trackers' bodies"],
         "explanation": "",
     },
+    "C16": {
+        "units": ["policy"],
+        "kani": {"quick": [], "thorough": []},
+        "level": "proof",
+        "level_text": "Deductive proof (Verus) on the real Policy::sort / Policy::sorted (recursive, through Arc::make_mut and the Vec of threshold children): "
+                      "the result is canonical at EVERY depth (and/or children ordered, threshold children sorted, recursively) and an already canonical policy is "
+                      "returned unchanged (idempotence). Only the LAST sentence of C16 (canonical sorting) is addressed, and of it not the confluence clause.",
+        "level_note": "Assumed (R8): the derived Ord on Policy is a total preorder (`ple`); slice::sort returns a sorted permutation and leaves a sorted input unchanged; "
+                      "Arc::make_mut gives write access to the Arc's content; `for sub in &mut *subs` is rewritten to an index loop (R10); the or-pattern arm is duplicated (R18); "
+                      "Vec values with equal contents are equal. NOT decided: that two policies differing only by reordering of children sort to the SAME policy (uniqueness of "
+                      "the canonical form); every clause about commitment roots, compilation, satisfaction and execution (needs typed programs, hashing, signatures).",
+        "assumptions": [
+            "derive(Ord) on Policy is a total preorder",
+            "Vec::sort yields a sorted permutation and is the identity on sorted input",
+            "Arc::make_mut(a) is a mutable reference to a's content",
+        ],
+        "not_decided": ["confluence: reordered policies have the same sorted form", "cmr/commit/satisfy/compile clauses of C16"],
+        "explanation": "",
+    },
 }
 
 NOT_APPLICABLE = [
